@@ -54,48 +54,67 @@ def patched(eng):
         U.random = saved
 
 
-def randomly(ns, nd, evenly, mc):
-    """mc: 'inf' | 'sym' | int"""
+def randomly(ns, nd, evenly, mc, mode='plain'):
+    """mc: 'inf' | 'sym' | int.  mode: 'plain' (fresh lists) | 'alias' (the same list object is source and destination set,
+    a peer topology) | 'twocall' (a capped random call first, then the call under test with the same list objects: the
+    destination set of the second call is the one the caller built)"""
     def h(eng):
         import mosaik.util as U
-        src = [f's{i}' for i in range(ns)]
-        dest = [f'd{i}' for i in range(nd)]
-        w = Recorder()
-        kw = {}
-        maxc = None
-        if mc == 'sym':
-            maxc = eng.int('max_connects', 1)
-            # documented precondition: enough capacity
-            eng.assume(ns <= nd * maxc)
-            kw['max_connects'] = maxc
-        elif mc != 'inf':
-            maxc = mc
-            kw['max_connects'] = mc
-        fp = [ns, nd, evenly, mc if mc != 'sym' else 'sym']
-        with patched(eng):
+        src_names = [f's{i}' for i in range(ns)]
+        dest_names = [f'd{i}' for i in range(nd)]
+        if mode == 'alias':
+            src_names = dest_names
+            src_obj = dest_obj = list(dest_names)
+        else:
+            src_obj, dest_obj = list(src_names), list(dest_names)
+        fp = [ns, nd, evenly, mc if mc != 'sym' else 'sym'] + ([mode] if mode != 'plain' else [])
+
+        def call(tag, evenly, mc):
+            w = Recorder()
+            kw = {}
+            maxc = None
+            if mc == 'sym':
+                maxc = eng.int(f'max_connects{tag}', 1)
+                # documented precondition: enough capacity
+                eng.assume(len(src_names) <= nd * maxc)
+                kw['max_connects'] = maxc
+            elif mc != 'inf':
+                maxc = mc
+                kw['max_connects'] = mc
             try:
-                ret = U.connect_randomly(w, list(src), list(dest), 'a', ('b', 'c'), evenly=evenly, **kw)
+                ret = U.connect_randomly(w, src_obj, dest_obj, 'a', ('b', 'c'), evenly=evenly, **kw)
             except Exception as e:  # noqa
                 eng.alarm('C18.exception', f'connect_randomly raised {type(e).__name__}: {e} after {len(w.calls)} connections; '
-                          f'src={ns} dest={nd} evenly={evenly} max_connects={maxc}', {'fp': fp + [type(e).__name__], 'exc': type(e).__name__,
-                                                                                          'made': len(w.calls), 'ns': ns})
+                          f'src={ns} dest={nd} evenly={evenly} max_connects={maxc} mode={mode}{tag}',
+                          {'fp': fp + [type(e).__name__], 'exc': type(e).__name__, 'made': len(w.calls), 'ns': ns})
+                return None
+            counts = {d: 0 for d in dest_names}
+            seen = []
+            what = f' (mode={mode}{tag})' if mode != 'plain' else ''
+            for (s, d, attrs, k) in w.calls:
+                seen.append(s)
+                eng.check(d in counts, 'C18.dest', f'connected to {d!r} which is not in the destination set{what}', {'fp': fp})
+                counts[d] = counts.get(d, 0) + 1
+                eng.check(attrs == ('a', ('b', 'c')), 'C18.attrs', 'attribute pairs not passed through', {'fp': fp})
+            eng.check(sorted(seen) == sorted(src_names), 'C18.once', f'sources connected {seen}, expected each of {src_names} exactly once{what}',
+                      {'fp': fp})
+            vals = list(counts.values())
+            if evenly:
+                eng.check(max(vals) - min(vals) <= 1, 'C18.even', f'evenly=True but connection counts over {dest_names} are {vals}{what}', {'fp': fp})
+            elif maxc is not None:
+                for d, c in counts.items():
+                    eng.check(c <= maxc, 'C18.max', f'{d} received {c} connections, max_connects={maxc}{what}', {'fp': fp})
+            eng.check(set(ret) == {d for d, c in counts.items() if c > 0}, 'C18.returned',
+                      f'returned {sorted(ret)} but connected destinations are {sorted(d for d, c in counts.items() if c > 0)}{what}', {'fp': fp})
+            return vals
+
+        with patched(eng):
+            if mode == 'twocall':
+                if call('/1st', False, 'sym') is None:
+                    return ('exception', {'nontrivial': True})
+            vals = call('', evenly, mc)
+            if vals is None:
                 return ('exception', {'nontrivial': True})
-        counts = {d: 0 for d in dest}
-        seen = []
-        for (s, d, attrs, k) in w.calls:
-            seen.append(s)
-            eng.check(d in counts, 'C18.dest', f'connected to {d!r} which is not in the destination set', {'fp': fp})
-            counts[d] = counts.get(d, 0) + 1
-            eng.check(attrs == ('a', ('b', 'c')), 'C18.attrs', 'attribute pairs not passed through', {'fp': fp})
-        eng.check(sorted(seen) == sorted(src), 'C18.once', f'sources connected {seen}, expected each of {src} exactly once', {'fp': fp})
-        vals = list(counts.values())
-        if evenly:
-            eng.check(max(vals) - min(vals) <= 1, 'C18.even', f'evenly=True but connection counts are {vals}', {'fp': fp})
-        elif maxc is not None:
-            for d, c in counts.items():
-                eng.check(c <= maxc, 'C18.max', f'{d} received {c} connections, max_connects={maxc}', {'fp': fp})
-        eng.check(set(ret) == {d for d, c in counts.items() if c > 0}, 'C18.returned',
-                  f'returned {sorted(ret)} but connected destinations are {sorted(d for d, c in counts.items() if c > 0)}', {'fp': fp})
         return ('ok', {'nontrivial': ns > 0, 'counts': vals})
     return h
 
@@ -123,6 +142,16 @@ def jobs(tier):
             for mc in ('inf', 'sym'):
                 out.append({'id': f'rand|{ns}|{nd}|{mc}', 'harness': 'vk.kernels.c18:randomly',
                             'params': {'ns': ns, 'nd': nd, 'evenly': False, 'mc': mc}, 'budget_s': 300})
+    # the same list as source and destination set (peers), and list objects reused for a second call
+    for nd in range(1, (3 if q else 4) + 1):
+        for evenly, mc in ((True, 'inf'), (False, 'inf'), (False, 'sym')):
+            out.append({'id': f'alias|{nd}|{int(evenly)}|{mc}', 'harness': 'vk.kernels.c18:randomly',
+                        'params': {'ns': nd, 'nd': nd, 'evenly': evenly, 'mc': mc, 'mode': 'alias'}, 'budget_s': 300})
+    for ns in range(1, (3 if q else 4) + 1):
+        for nd in range(2, (3 if q else 4) + 1):
+            for evenly, mc in ((True, 'inf'), (False, 'sym')):
+                out.append({'id': f'twocall|{ns}|{nd}|{int(evenly)}|{mc}', 'harness': 'vk.kernels.c18:randomly',
+                            'params': {'ns': ns, 'nd': nd, 'evenly': evenly, 'mc': mc, 'mode': 'twocall'}, 'budget_s': 300})
     for ns in range(0, 4):
         out.append({'id': f'many|{ns}', 'harness': 'vk.kernels.c18:many_to_one', 'params': {'ns': ns}})
     return out
